@@ -55,6 +55,45 @@ def rPairs : Sexp → Option (List (Bytes × Bytes))
       | _ => none) l
   | _ => none
 
+def rOp : Sexp → Option DeltaOp
+  | .list [.atom "opn", i, g, f] =>
+    match rId i, g.nat?, f.nat? with
+    | some i, some g, some f => some (.node i g f)
+    | _, _, _ => none
+  | .list [.atom "opk", m] => (rKvm m).map .kv
+  | .list [.atom "opm", v] => v.nat?.map .setMax
+  | _ => none
+
+/-- the compressor that never compresses (every block is stored uncompressed) -/
+def rawCompressor : Compressor := { compress := fun _ => none, decompress := fun _ => none }
+
+/-- `(mkdelta mtu (ops) oracle)`: feed the ops to a `DeltaSerializer`; a refused op is skipped. -/
+def mkDelta (C : Compressor) (mtu : Nat) (ops : List DeltaOp) : Except Panic (String × Delta) :=
+  match DeltaSerializer.withMtu mtu with
+  | .error e => .error e
+  | .ok ds =>
+    let rec go (ds : DeltaSerializer) (acc : String) : List DeltaOp → Except Panic (String × Delta)
+      | [] => .ok (acc, ds.finish C)
+      | op :: rest =>
+        match ds.tryAddOp C op with
+        | .error e => .error e
+        | .ok none => go ds (acc ++ "0") rest
+        | .ok (some ds') => go ds' (acc ++ "1") rest
+    go ds "b" ops
+
+def encMsgRaw (thr : Nat) : Msg → Bytes
+  | .syn cid d => msgHeader 0 ++ encDigest d ++ encStr cid
+  | .synAck d delta => msgHeader 1 ++ encDigest d ++ encDeltaPayload rawCompressor thr delta
+  | .ack delta => msgHeader 2 ++ encDeltaPayload rawCompressor thr delta
+  | .badCluster => msgHeader 3
+
+def pWire (C : Compressor) : Option Msg → String
+  | none => "(wire none)"
+  | some m =>
+    match encMsg C m with
+    | .ok b => pList "wire" [toString b.length, toString (msgLen m)]
+    | .error e => pList "wire" [pPanic e]
+
 def bad (w : World) (why : String) : World × String := (w, "(bad-op " ++ why ++ ")")
 
 def pEffects (e : Effects) : String :=
@@ -119,6 +158,12 @@ def step (w : World) (cmd : Sexp) : World × String :=
       let n' := { n with cs := (n.cs.initIfAbsent i).setNode i ns }
       (w.setNode slot n', pList "ok" [pNode n'])
     | _, _, _, _ => bad w "setcopy"
+  | .list [.atom "setcopyq", slot, i, ns] =>
+    match slot.nat?.bind w.node?, slot.nat?, rId i, rNs ns with
+    | some n, some slot, some i, some ns =>
+      let n' := { n with cs := (n.cs.initIfAbsent i).setNode i ns }
+      (w.setNode slot n', "(ok)")
+    | _, _, _, _ => bad w "setcopyq"
   | .list [.atom "syn", slot] =>
     match slot.nat?.bind w.node? with
     | some n => (w, pMsg (n.createSyn w.now))
@@ -134,8 +179,17 @@ def step (w : World) (cmd : Sexp) : World × String :=
     | some n, some slot, some m, some order, some oracle =>
       match n.processMessage (oracleCompressor oracle) m w.now order with
       | .error e => (w, pPanic e)
-      | .ok (n', fx) => (w.setNode slot n', pList "ok" [pEffects fx, pNode n'])
+      | .ok (n', fx) =>
+        (w.setNode slot n', pList "ok" [pEffects fx, pWire (oracleCompressor oracle) fx.reply, pNode n'])
     | _, _, _, _, _ => bad w "msg"
+  | .list [.atom "msglite", slot, m, order, oracle] =>
+    match slot.nat?.bind w.node?, slot.nat?, rMsg m, rIds order, rOracle oracle with
+    | some n, some slot, some m, some order, some oracle =>
+      match n.processMessage (oracleCompressor oracle) m w.now order with
+      | .error e => (w, pPanic e)
+      | .ok (n', fx) =>
+        (w.setNode slot n', pList "ok" [pEffects fx, pWire (oracleCompressor oracle) fx.reply])
+    | _, _, _, _, _ => bad w "msglite"
   | .list [.atom "live", slot] =>
     match slot.nat?.bind w.node?, slot.nat? with
     | some n, some slot =>
@@ -201,6 +255,17 @@ def step (w : World) (cmd : Sexp) : World × String :=
       | .error e => (w, pPanic e)
       | .ok b => (w, pList "ok" [toString (msgLen m), pBytes b])
     | _, _ => bad w "enc"
+  | .list [.atom "mkdelta", mtu, ops, oracle] =>
+    match mtu.nat?, (rTagged ops).bind (mapM? rOp), rOracle oracle with
+    | some mtu, some ops, some oracle =>
+      match mkDelta (oracleCompressor oracle) mtu ops with
+      | .error e => (w, pPanic e)
+      | .ok (flags, d) => (w, pList "ok" [flags, pDelta d])
+    | _, _, _ => bad w "mkdelta"
+  | .list [.atom "encraw", m, thr] =>
+    match rMsg m, thr.nat? with
+    | some m, some thr => (w, pList "ok" [pBytes (encMsgRaw thr m)])
+    | _, _ => bad w "encraw"
   | .list [.atom "dec", b, oracle] =>
     match b.bytes?, rOracle oracle with
     | some b, some oracle =>
@@ -210,26 +275,29 @@ def step (w : World) (cmd : Sexp) : World × String :=
     | _, _ => bad w "dec"
   | _ => bad w "unknown"
 
-partial def loop (h : IO.FS.Stream) (out : IO.FS.Stream) (w : World) : IO Unit := do
+partial def loop (h : IO.FS.Stream) (out : IO.FS.Stream) (flush : Bool) (w : World) : IO Unit := do
   let line ← h.getLine
   if line.isEmpty then return ()
   let line := line.trimAscii.toString
   if line.isEmpty then
     out.putStrLn "(blank)"
-    loop h out w
+    if flush then out.flush
+    loop h out flush w
   else
     match parseLine line with
     | none =>
       out.putStrLn "(bad-op parse)"
-      loop h out w
+      if flush then out.flush
+      loop h out flush w
     | some cmd =>
       let (w', o) := step w cmd
       out.putStrLn o
-      loop h out w'
+      if flush then out.flush
+      loop h out flush w'
 
 end Chitchat.Driver
 
-def main : IO Unit := do
+def main (args : List String) : IO Unit := do
   let stdin ← IO.getStdin
   let stdout ← IO.getStdout
-  Chitchat.Driver.loop stdin stdout {}
+  Chitchat.Driver.loop stdin stdout (args.contains "--flush") {}
